@@ -100,13 +100,13 @@ Borderline(mm, i) ==
       t == R[i]  a == t.af
       c == Core(S, REG, t)
   IN  CASE t.act = "Roc" ->
-             /\ L.acb[a] # S.acb[a]
+             /\ ~REq(L.acb[a], S.acb[a])
              /\ RClose(RMul(RMul(t.p, S.sh[a]), t.r), S.acb[a], Eps)
-        [] t.act = "Split" -> L.sh[a] # S.sh[a]
+        [] t.act = "Split" -> ~REq(L.sh[a], S.sh[a])
         [] t.act = "Sell" ->
-             \/ L.sh[a] # S.sh[a] /\ RClose(t.q, S.sh[a], Eps)
+             \/ ~REq(L.sh[a], S.sh[a]) /\ RClose(t.q, S.sh[a], Eps)
              \/ /\ c.ok /\ c.hasGain
-                /\ \/ RLe(RAbs(c.raw), Eps) /\ ~(PerShareExact(S, a) /\ L.acb[a] = S.acb[a])
+                /\ \/ RLe(RAbs(c.raw), Eps) /\ ~(PerShareExact(S, a) /\ REq(L.acb[a], S.acb[a]))
                    \/ /\ RNegative(c.raw) /\ t.hasSfl /\ ~t.force /\ ~ForwardBad(R, i, c.S)
                       /\ RClose(RAbs(RSub(ComputedSfl(R, i, c.S, c.raw), t.sflv)), MaxSflDiff, Eps2)
                    \/ /\ RNegative(c.raw) /\ ~AllAdjDecimal(R, i)
@@ -119,8 +119,8 @@ Borderline(mm, i) ==
 LogInto(L, d) == [L EXCEPT !.sh[d.af] = D(d.sh), !.acb[d.af] = D(d.acb), !.all = D(d.all)]
 
 ChainOK(mm, d) ==
-  /\ D(d.preSh) = mm.L.sh[d.af] /\ D(d.preAll) = mm.L.all
-  /\ (d.preHasAcb => D(d.preAcb) = mm.L.acb[d.af])
+  /\ REq(D(d.preSh), mm.L.sh[d.af]) /\ REq(D(d.preAll), mm.L.all)
+  /\ (d.preHasAcb => REq(D(d.preAcb), mm.L.acb[d.af]))
 LoggedOK(mm, d) ==
   /\ ~RNegative(D(d.sh)) /\ ~RNegative(D(d.all)) /\ ~RNegative(D(d.acb))
   /\ d.hasAcb = ~mm.REG[d.af] /\ d.preHasAcb = ~mm.REG[d.af]
